@@ -87,6 +87,8 @@ pub struct Session {
 
 impl Session {
     async fn handle_io_error(&self, context: &str, error: std::io::Error) -> AnyTlsError {
+        #[cfg(anytls_rs_verif)]
+        verif_sched::point("io_err.enter").await;
         tracing::error!(
             session_id = self.id(),
             ctx = context,
@@ -217,6 +219,8 @@ impl Session {
         if already_closed {
             return Ok(());
         }
+        #[cfg(anytls_rs_verif)]
+        verif_sched::point("close.flag_set").await;
         self.close_notify.notify_waiters();
 
         // Close stream data receiver so process_stream_data exits
@@ -232,6 +236,8 @@ impl Session {
         }
 
         // Attempt to shutdown writer gracefully
+        #[cfg(anytls_rs_verif)]
+        verif_sched::point("close.before_writer").await;
         {
             let mut writer = self.writer.lock().await;
             match time::timeout(Duration::from_secs(1), writer.shutdown()).await {
@@ -809,6 +815,8 @@ impl Session {
 
         tracing::trace!("[Session] Stream {} stored in session", stream_id);
 
+        #[cfg(anytls_rs_verif)]
+        verif_sched::point("open.registered").await;
         // Send SYN frame
         tracing::trace!("[Session] Sending SYN frame for stream {}", stream_id);
         let frame = Frame::control(Command::Syn, stream_id);
@@ -852,6 +860,8 @@ impl Session {
     /// Write a frame to the connection
     pub async fn write_frame(&self, frame: Frame) -> Result<()> {
         use tokio_util::codec::Encoder;
+        #[cfg(anytls_rs_verif)]
+        verif_sched::point("wf.enter").await;
         if self.is_closed() {
             return Err(AnyTlsError::SessionClosed);
         }
@@ -875,6 +885,8 @@ impl Session {
                 frame_cmd,
                 frame_stream_id
             );
+            #[cfg(anytls_rs_verif)]
+            verif_sched::point("wf.buffering").await;
             let mut buf = self.buffer.lock().await;
             let old_len = buf.len();
             buf.extend_from_slice(&buffer);
@@ -888,7 +900,11 @@ impl Session {
 
         // Take the writer lock before the pending buffer is drained, so that whoever
         // drains it is also the next one to reach the transport (frames cannot overtake)
+        #[cfg(anytls_rs_verif)]
+        verif_sched::point("wf.before_writer").await;
         let writer = self.writer.lock().await;
+        #[cfg(anytls_rs_verif)]
+        verif_sched::point("wf.writer_locked").await;
 
         // Flush buffer if any
         {
@@ -929,6 +945,8 @@ impl Session {
             );
         }
 
+        #[cfg(anytls_rs_verif)]
+        verif_sched::point("wf.buffer_taken").await;
         // Write with padding if enabled
         self.write_with_padding(buffer, writer).await
     }
@@ -1365,6 +1383,15 @@ impl Session {
         Ok(())
     }
 
+    /// Verification hook: sizes of the two per-stream tables (streams, inbound queues)
+    #[cfg(anytls_rs_verif)]
+    pub async fn verif_table_sizes(&self) -> (usize, usize) {
+        (
+            self.streams.read().await.len(),
+            self.stream_receive_tx.read().await.len(),
+        )
+    }
+
     /// Get session sequence number
     pub fn seq(&self) -> u64 {
         self.seq.load(std::sync::atomic::Ordering::Relaxed)
@@ -1379,6 +1406,44 @@ impl Session {
     pub fn peer_version(&self) -> u8 {
         self.peer_version.load(std::sync::atomic::Ordering::Relaxed)
     }
+}
+
+/// Verification hook (compiled only with `--cfg anytls_rs_verif`): named scheduling
+/// points. Without an installed controller `point` returns immediately.
+#[cfg(anytls_rs_verif)]
+pub mod verif_sched {
+    use std::future::Future;
+    use std::pin::Pin;
+    use std::sync::{Arc, RwLock};
+
+    pub type Controller =
+        Arc<dyn Fn(&'static str) -> Pin<Box<dyn Future<Output = ()> + Send>> + Send + Sync>;
+
+    static CONTROLLER: RwLock<Option<Controller>> = RwLock::new(None);
+
+    pub fn set_controller(c: Option<Controller>) {
+        *CONTROLLER.write().unwrap() = c;
+    }
+
+    pub async fn point(name: &'static str) {
+        let c = CONTROLLER.read().unwrap().clone();
+        if let Some(c) = c {
+            c(name).await;
+        }
+    }
+
+    /// names of the scheduling points placed in session.rs
+    pub const POINTS: &[&str] = &[
+        "wf.enter",
+        "wf.buffering",
+        "wf.before_writer",
+        "wf.writer_locked",
+        "wf.buffer_taken",
+        "io_err.enter",
+        "close.flag_set",
+        "close.before_writer",
+        "open.registered",
+    ];
 }
 
 #[cfg(test)]
